@@ -345,38 +345,54 @@ fn replay_concurrent_inner(scratch: &std::path::Path, pair: &[Reg; 2], schedule:
         let mut handles: Vec<Option<tokio::task::JoinHandle<_>>> = vec![None, None];
         let mut results: Vec<Option<Result<SignerWithStake, String>>> = vec![None, None];
         let mut started = [false, false];
-        let mut machinery = None;
+        // A request that makes no progress for SPINS scheduler turns is waiting for the other
+        // request (an implementation that serializes registrations): the schedule goes on and the
+        // request is completed at the end. No wall clock is involved.
+        const SPINS: usize = 200;
+        let take = |r: Result<Result<SignerWithStake, mithril_aggregator::services::SignerRegistrationError>, tokio::task::JoinError>| match r {
+            Ok(Ok(s)) => Ok(s),
+            Ok(Err(e)) => Err(format!("refused:{}", format!("{e}").chars().take(40).collect::<String>())),
+            Err(e) => Err(format!("handler-panicked:{}", format!("{e}").chars().take(60).collect::<String>())),
+        };
+        let mut blocked = 0;
         for &i in schedule {
             if !started[i] {
                 started[i] = true;
                 let (l, s) = (leader.clone(), signers[i].clone());
                 handles[i] = Some(tokio::spawn(async move { l.register_signer(rec_epoch, &s).await }));
                 // run it to the suspension point or to its end
-                let mut spins = 0;
-                loop {
-                    let done = handles[i].as_ref().unwrap().is_finished();
-                    let parked = recorder.arrived.lock().unwrap().contains(&ids[i]);
-                    if done || parked {
-                        break;
-                    }
-                    spins += 1;
-                    if spins > 100_000 {
-                        machinery = Some(format!("request {i} neither finished nor reached the suspension point"));
+                let mut reached = false;
+                for _ in 0..SPINS {
+                    if handles[i].as_ref().unwrap().is_finished() || recorder.arrived.lock().unwrap().contains(&ids[i]) {
+                        reached = true;
                         break;
                     }
                     tokio::task::yield_now().await;
                 }
+                if !reached {
+                    blocked += 1;
+                }
             } else {
                 recorder.gate(&ids[i]).add_permits(1);
-                results[i] = Some(match handles[i].take().unwrap().await {
-                    Ok(Ok(s)) => Ok(s),
-                    Ok(Err(e)) => Err(format!("refused:{}", format!("{e}").chars().take(40).collect::<String>())),
-                    Err(e) => Err(format!("handler-panicked:{}", format!("{e}").chars().take(60).collect::<String>())),
-                });
+                for _ in 0..SPINS {
+                    if handles[i].as_ref().unwrap().is_finished() {
+                        break;
+                    }
+                    tokio::task::yield_now().await;
+                }
+                if handles[i].as_ref().unwrap().is_finished() {
+                    results[i] = Some(take(handles[i].take().unwrap().await));
+                }
             }
         }
-        if let Some(m) = machinery {
-            panic!("{m}");
+        // every gate is open now: whatever was waiting for the other request completes
+        for i in 0..2 {
+            if let Some(h) = handles[i].take() {
+                match tokio::time::timeout(std::time::Duration::from_secs(20), h).await {
+                    Ok(r) => results[i] = Some(take(r)),
+                    Err(_) => panic!("request {i} does not complete although every suspension point is released"),
+                }
+            }
         }
         let answers: Vec<String> = results.iter().map(|r| match r {
             Some(Ok(_)) => "accepted".to_string(),
@@ -411,7 +427,7 @@ fn replay_concurrent_inner(scratch: &std::path::Path, pair: &[Reg; 2], schedule:
             canon: json!({"pair": pair, "schedule": schedule, "answers": answers, "stored": stored.len(), "buildable": buildable}).to_string(),
             violations,
             nontrivial: !accepted.is_empty(),
-            outcome: format!("concurrent:accepted={},stored={},signer_set_buildable={buildable}", accepted.len(), stored.len()),
+            outcome: format!("concurrent:accepted={},stored={},signer_set_buildable={buildable}{}", accepted.len(), stored.len(), if blocked > 0 { ",a-request-waited-for-the-other" } else { "" }),
             disabled: false,
         }
     });
